@@ -17,6 +17,10 @@ def mkneg(r):
         minVersion = vmin
         maxVersion = vmax
         initialVocabTableRange = (vocmin, vocmax)
+    # a peer from the future: it implements the versions it offers (Negotiation.__init__ insists), the older peer does not
+    for v in range(4, vmax + 1):
+        setattr(N, "evaluateNegotiationVersion%d" % v, neg.Negotiation.evaluateNegotiationVersion3)
+        setattr(N, "acceptDecisionVersion%d" % v, neg.Negotiation.acceptDecisionVersion3)
     return N
 
 
@@ -80,6 +84,10 @@ def expected(ra, rb):
     return (max(vs), max(vo)) if vs and vo else None
 
 
+from foolscap.tokens import NegotiationError, RemoteNegotiationError, BananaError
+NEGOTIATION_ERRORS = (NegotiationError, RemoteNegotiationError, BananaError)
+
+
 def judge(ctx, tag, cfg, pa, pb, res, want_success=None):
     """the property itself, on the implementation's observable outcome"""
     bad = None
@@ -93,6 +101,8 @@ def judge(ctx, tag, cfg, pa, pb, res, want_success=None):
         bad = "connection established but the call did not return: %r" % (res,)
     elif not pa and res == [42]:
         bad = "call succeeded without brokers"
+    elif not pa and isinstance(res[0], type) and not issubclass(res[0], NEGOTIATION_ERRORS):
+        bad = "the attempt failed, but not with a negotiation error: the caller got %s" % res[0].__name__
     elif want_success is not None:
         if want_success and (not pa or pa[0] != want_success):
             bad = "expected both ends to use %r, got %r" % (want_success, pa)
@@ -118,6 +128,20 @@ def sweep(ctx):
                     ctx.hist("sweep_outcome", "banana" if pa else "failed")
                     cfg["obs"] = (pa[0] if len(pa) == 1 else None, pb[0] if len(pb) == 1 else None)
                     cases.append(cfg)
+        # version skew: one side also offers a version (4) that the other does not implement; the common version is still chosen,
+        # and a refusal after the roles are known must still reach the other side as a negotiation error
+        for ra in [(3, 4, 0, 0), (3, 4, 0, 1), (1, 4, 1, 1), (2, 4, 0, 0)]:
+            for rb in [(3, 3, 1, 1), (3, 3, 0, 1), (1, 3, 0, 0), (1, 2, 1, 1), (2, 3, 0, 0)]:
+                for a_high in (False, True):
+                    for dial in ("a", "b"):
+                        for swap in (False, True):
+                            xa, xb = (rb, ra) if swap else (ra, rb)
+                            cfg = dict(ra=xa, rb=xb, a_high=a_high, tamper=None, dial=dial)
+                            pa, pb, res = trial(xa, xb, a_high, dial_from=dial)
+                            exp = expected(xa, xb)
+                            judge(ctx, "version-skew", cfg, pa, pb, res, exp if exp else False)
+                            ctx.case(["skew", xa, xb, a_high, dial], nontrivial=len(res) == 1)
+                            ctx.hist("skew_outcome", "banana" if pa else "failed")
         # decision rewritten in flight so that the master's table hash differs from the slave's
         def swap_hash(link, side, d):
             return re.sub(rb"(initial-vocab-table-index: \d+ )([0-9a-f]{4})", lambda m: m.group(1) + b"ffff", d)
